@@ -31,6 +31,19 @@ fn main() {
     std::panic::set_hook(Box::new(|_| {}));
     match cmd {
         "replay" => replay(&args),
+        "mutate" => mutate(&args),
+        "buildtree" => {
+            // pyxis::build on a prepared directory tree; prints the outcome and the full error chain
+            let ind = arg(&args, "--in-dir").expect("--in-dir");
+            let outd = arg(&args, "--out-dir").expect("--out-dir");
+            let ptr: usize = arg(&args, "--ptr").and_then(|s| s.parse().ok()).unwrap_or(8);
+            let r = std::panic::catch_unwind(|| pyxis::build(std::path::Path::new(&ind), std::path::Path::new(&outd), ptr));
+            match r {
+                Err(_) => println!("outcome=panic"),
+                Ok(Ok(())) => println!("outcome=ok"),
+                Ok(Err(e)) => println!("outcome=err {e:#}"),
+            }
+        }
         "render" => {
             // render the abstract inputs of an ndjson file to text (debugging aid)
             let inp = arg(&args, "--in").expect("--in");
@@ -112,6 +125,169 @@ fn replay(args: &[String]) {
         CUR_START.store(0, Ordering::SeqCst);
         serde_json::to_writer(&mut out, &obs).unwrap();
         out.write_all(b"\n").unwrap();
+    }
+    out.flush().unwrap();
+}
+
+
+/// C12: grammar-directed mutations of printed modules.  Each case's text is tokenised and K
+/// single-token mutations (delete / duplicate / swap / replace) are applied one at a time; the
+/// mutated text goes through parse_str, add_module and build under catch_unwind.
+fn tokens(text: &str) -> Vec<String> {
+    let b: Vec<char> = text.chars().collect();
+    let mut out = vec![];
+    let mut i = 0;
+    while i < b.len() {
+        let c = b[i];
+        if c.is_whitespace() {
+            i += 1;
+        } else if c.is_alphabetic() || c == '_' {
+            let st = i;
+            while i < b.len() && (b[i].is_alphanumeric() || b[i] == '_') {
+                i += 1;
+            }
+            out.push(b[st..i].iter().collect());
+        } else if c.is_ascii_digit() {
+            let st = i;
+            while i < b.len() && (b[i].is_alphanumeric() || b[i] == '_') {
+                i += 1;
+            }
+            out.push(b[st..i].iter().collect());
+        } else if c == '"' {
+            let st = i;
+            i += 1;
+            while i < b.len() && b[i] != '"' {
+                if b[i] == '\\' {
+                    i += 1;
+                }
+                i += 1;
+            }
+            i = (i + 1).min(b.len());
+            out.push(b[st..i].iter().collect());
+        } else if c == '/' && i + 1 < b.len() && b[i + 1] == '/' {
+            let st = i;
+            while i < b.len() && b[i] != '\n' {
+                i += 1;
+            }
+            out.push(format!("{}\n", b[st..i].iter().collect::<String>()));
+        } else {
+            out.push(c.to_string());
+            i += 1;
+        }
+    }
+    out
+}
+
+fn mutate(args: &[String]) {
+    use rand::{Rng, SeedableRng};
+    let inp = arg(args, "--in").expect("--in");
+    let outp = arg(args, "--out").expect("--out");
+    let k: usize = arg(args, "--n").and_then(|s| s.parse().ok()).unwrap_or(20);
+    let seed: u64 = arg(args, "--seed").and_then(|s| s.parse().ok()).unwrap_or(1);
+    let skip: usize = arg(args, "--skip").and_then(|s| s.parse().ok()).unwrap_or(0);
+    let timeout_ms: u64 = arg(args, "--timeout-ms").and_then(|s| s.parse().ok()).unwrap_or(10_000);
+    let pool = [
+        "type", "enum", "impl", "fn", "pub", "vftable", "extern", "use", "backend", "unknown", "self", "mut", "const", "super",
+        "{", "}", "(", ")", "[", "]", "<", ">", ",", ";", ":", "::", "#", "!", "=", "*", "&", "-", "->", "_",
+        "0", "18446744073709551615", "9223372036854775808", "-1", "0x", "1e9", "\"s\"", "r#x", "'a", "@", "$", "\\",
+    ];
+    let out = std::fs::OpenOptions::new().create(true).append(true).open(&outp).unwrap();
+    let mut out = BufWriter::new(out);
+    let outp2 = outp.clone();
+    std::thread::spawn(move || loop {
+        std::thread::sleep(std::time::Duration::from_millis(200));
+        let id = CUR_ID.load(Ordering::SeqCst);
+        let st = CUR_START.load(Ordering::SeqCst);
+        if id >= 0 && st > 0 && now_ms().saturating_sub(st) > timeout_ms {
+            let mut f = std::fs::OpenOptions::new().append(true).open(&outp2).unwrap();
+            let _ = writeln!(f, "{{\"id\":{id},\"outcome\":\"hang\",\"accepted\":false,\"text\":\"(see cur_text file)\"}}");
+            std::process::exit(3);
+        }
+    });
+    let reader = std::io::BufReader::new(std::fs::File::open(inp).unwrap());
+    let mut n_line = 0usize;
+    for line in reader.lines() {
+        let line = line.unwrap();
+        if line.trim().is_empty() {
+            continue;
+        }
+        let case: Value = serde_json::from_str(&line).unwrap();
+        let cid = case["id"].as_i64().unwrap_or(0);
+        let ptr = case["input"]["ptr"].as_u64().unwrap_or(8) as usize;
+        let mods = render::arr(&case["input"]["mods"]);
+        let texts: Vec<String> = mods.iter().map(|m| render::module(m, &mut render::Style { rng: None })).collect();
+        let mut rng = rand::rngs::StdRng::seed_from_u64(seed.wrapping_mul(0x9E3779B97F4A7C15).wrapping_add(cid as u64));
+        for j in 0..k {
+            n_line += 1;
+            if n_line <= skip {
+                // keep the rng in step
+                let _: u64 = rng.gen();
+                let _: u64 = rng.gen();
+                let _: u64 = rng.gen();
+                continue;
+            }
+            let mi = (rng.gen::<u64>() as usize) % texts.len().max(1);
+            let mut toks = tokens(&texts[mi]);
+            let a: u64 = rng.gen();
+            let b: u64 = rng.gen();
+            if !toks.is_empty() {
+                let i = (a as usize) % toks.len();
+                match b % 4 {
+                    0 => {
+                        toks.remove(i);
+                    }
+                    1 => {
+                        let t = toks[i].clone();
+                        toks.insert(i, t);
+                    }
+                    2 => {
+                        if i + 1 < toks.len() {
+                            toks.swap(i, i + 1);
+                        }
+                    }
+                    _ => {
+                        toks[i] = pool[((b / 4) as usize) % pool.len()].to_string();
+                    }
+                }
+            }
+            let text = toks.join(" ");
+            out.flush().unwrap();
+            let mid = cid * 1000 + j as i64;
+            CUR_ID.store(mid, Ordering::SeqCst);
+            CUR_START.store(now_ms(), Ordering::SeqCst);
+            let r = std::panic::catch_unwind(std::panic::AssertUnwindSafe(|| -> Result<(), (String, String)> {
+                let mut st = pyxis::semantic::SemanticState::new(ptr);
+                for (k2, m) in mods.iter().enumerate() {
+                    let t = if k2 == mi { &text } else { &texts[k2] };
+                    let parsed = pyxis::parser::parse_str(t).map_err(|e| {
+                        let lc = e.span().start();
+                        ("parse".to_string(), format!("{}:{} {e}", lc.line, lc.column + 1))
+                    })?;
+                    let mut p = pyxis::grammar::ItemPath::empty();
+                    for seg in render::arr(&m["path"]) {
+                        p.push(render::s(seg).into());
+                    }
+                    st.add_module(&parsed, &p).map_err(|e| ("add".to_string(), format!("{e:#}")))?;
+                }
+                let resolved = st.build().map_err(|e| ("build".to_string(), format!("{e:#}")))?;
+                let dir = std::env::temp_dir();
+                let _ = dir;
+                let _ = resolved;
+                Ok(())
+            }));
+            CUR_START.store(0, Ordering::SeqCst);
+            let obs = match r {
+                Err(p) => {
+                    let msg = p.downcast_ref::<String>().cloned().or_else(|| p.downcast_ref::<&str>().map(|t| t.to_string())).unwrap_or_default();
+                    serde_json::json!({"id": mid, "outcome": "panic", "accepted": false, "msg": msg, "text": text})
+                }
+                Ok(Err((stage, msg))) => serde_json::json!({"id": mid, "outcome": "err", "accepted": false, "stage": stage,
+                                                            "msg": msg.chars().take(200).collect::<String>()}),
+                Ok(Ok(())) => serde_json::json!({"id": mid, "outcome": "ok", "accepted": true}),
+            };
+            serde_json::to_writer(&mut out, &obs).unwrap();
+            out.write_all(b"\n").unwrap();
+        }
     }
     out.flush().unwrap();
 }
